@@ -105,6 +105,14 @@ var ConcatFunc = function.New(&function.Spec{
 			if len(vals) == 0 {
 				return cty.ListValEmpty(retType.ElementType()).WithMarks(markses...), nil
 			}
+			for _, v := range vals {
+				if !v.Type().Equals(vals[0].Type()) {
+					// This can happen only if the unified element type still
+					// has dynamically-typed parts, in which case we can't
+					// build the list until the element types are known.
+					return cty.UnknownVal(retType).WithMarks(markses...), nil
+				}
+			}
 
 			return cty.ListVal(vals).WithMarks(markses...), nil
 		case retType.IsTupleType():
